@@ -5,7 +5,7 @@ use vcore::drive::{enum_strings, prop_par, Verdict};
 use vcore::rt::{self, digest_str, Acc, Args, Report};
 use vcore::sgr::{self, MColor, MStyle};
 
-const RULE: &str = "Inputs: exhaustively all 1- and 2-word (thorough: 3-word) descriptions over a 60-word vocabulary (names, normal, -1, attributes with no/no- prefixes, numbers, hex colours, near misses) and all '#'+3 and '#'+6 strings over {0 9 a f A F g G + - space e-acute}; grammar-generated descriptions of 0..6 words in random order with random ASCII case and ASCII/Unicode white space; single-edit mutations of valid descriptions (insert/delete/replace, incl. multi-byte characters inside hex words); arbitrary Unicode. Oracle: a reference parser written from the syntax in the property (Result<style, (error kind, word)>), and parse(print(style)) == style for every expressible style. Excluded (undetermined by the statement, counted): decimal numbers with an explicit '+', words containing U+212A KELVIN SIGN. Non-trivial = at least 2 words, or a '#' word, or an input the reference rejects (distinct by input string).";
+const RULE: &str = "Inputs: exhaustively all 1- and 2-word (thorough: 3-word) descriptions over a 60-word vocabulary (names, normal, -1, attributes with no/no- prefixes, numbers, hex colours, near misses) and all '#'+3 and '#'+6 strings over {0 9 a f A F g G + - space e-acute}; grammar-generated descriptions of 0..6 words in random order with random ASCII case and ASCII/Unicode white space; single-edit mutations of valid descriptions (insert/delete/replace, incl. multi-byte characters inside hex words); arbitrary Unicode. Oracle: a reference parser written from the syntax in the property (Result<style, (error kind, word)>), and parse(print(style)) == style for every expressible style. Excluded (undetermined by the statement, counted): decimal numbers with an explicit '+'. Non-trivial = at least 2 words, or a '#' word, or an input the reference rejects (distinct by input string).";
 
 #[derive(Debug, PartialEq, Eq, Clone)]
 enum RefErr {
@@ -90,9 +90,6 @@ fn reference(s: &str) -> Result<MStyle, RefErr> {
 
 /// undetermined by the statement: skip
 fn excluded(s: &str) -> Option<&'static str> {
-    if s.contains('\u{212a}') {
-        return Some("kelvin-sign");
-    }
     for w in s.split(char::is_whitespace) {
         if let Some(rest) = w.strip_prefix('+') {
             if !rest.is_empty() && rest.bytes().all(|b| b.is_ascii_digit()) {
@@ -221,6 +218,19 @@ fn random_case(s: &str, mask: u64) -> String {
     s.chars().enumerate().map(|(i, c)| if mask >> (i % 64) & 1 == 1 { c.to_ascii_uppercase() } else { c }).collect()
 }
 
+/// keywords with a letter replaced by a non-ASCII character whose Unicode
+/// lower-casing is that letter (U+212A KELVIN SIGN -> k) or upper-casing
+/// (U+017F LONG S -> S, U+0131 DOTLESS I -> I): not letter-case variants in
+/// git's (ASCII) sense, must be rejected
+fn arb_lookalike() -> BoxedStrategy<String> {
+    (prop::sample::select(vec!["black", "blink", "strike", "nostrike", "no-blink", "Black", "BLINK", "italic", "bold", "reverse", "white", "dim"]), prop::sample::select(vec![" red", "", " 7", " bold"]), any::<bool>())
+        .prop_map(|(w, rest, front)| {
+            let t: String = w.chars().map(|c| match c { 'k' | 'K' => '\u{212a}', 's' => '\u{17f}', 'i' => '\u{131}', c => c }).collect();
+            if front { format!("{t}{rest}") } else { format!("{}{t}", rest.trim_start().to_owned() + " ") }
+        })
+        .boxed()
+}
+
 fn arb_description() -> BoxedStrategy<String> {
     (proptest::collection::vec((arb_valid_word(), any::<u64>(), prop::sample::select(WS.to_vec())), 0..=6), prop::sample::select(vec!["", " ", "\t", "\u{a0}"]))
         .prop_map(|(words, lead)| {
@@ -235,7 +245,7 @@ fn arb_description() -> BoxedStrategy<String> {
 }
 
 fn arb_mutated() -> BoxedStrategy<String> {
-    (arb_description(), any::<prop::sample::Index>(), 0u8..3, prop::sample::select(vec!['+', '-', '#', ' ', 'x', 'g', '0', '9', 'é', 'ß', '\u{ff10}', '\u{0661}', '\u{130}', '\u{3000}', ',', 'N', 'o', '\u{200b}', '😀']))
+    (arb_description(), any::<prop::sample::Index>(), 0u8..3, prop::sample::select(vec!['+', '-', '#', ' ', 'x', 'g', '0', '9', 'é', 'ß', '\u{ff10}', '\u{0661}', '\u{130}', '\u{212a}', '\u{17f}', '\u{3000}', ',', 'N', 'o', '\u{200b}', '😀']))
         .prop_map(|(s, ix, kind, ch)| {
             let bounds: Vec<usize> = (0..=s.len()).filter(|i| s.is_char_boundary(*i)).collect();
             let p = bounds[ix.index(bounds.len())];
@@ -288,7 +298,7 @@ fn str_body(s: &str, acc: &mut Acc) -> Result<bool, String> {
 fn run(args: &Args, rep: &mut Report) {
     let tier = args.tier;
     rep.assume("'#rgb' denotes the three digit values themselves (RGB(0xc,0xb,0xa) for #cba), as the crate's own pinned tests state; git >= 2.46 reads #cba as #ccbbaa - the property does not decide this");
-    rep.assume("decimal numbers may carry leading zeros; an explicit '+' and U+212A are excluded as undetermined");
+    rep.assume("decimal numbers may carry leading zeros; an explicit '+' is excluded as undetermined; letter case is ASCII letter case as in git (strcasecmp)");
     let n = rt::workers();
     // (a) vocabulary words
     let vocab = vocabulary();
@@ -360,6 +370,8 @@ fn run(args: &Args, rep: &mut Report) {
         prop_par("valid-descriptions", args.seed, tier.pick(60_000, 10_000_000), arb_description, sbody, |s| json!(s)));
     rep.add("single-edit-mutations", false, "one insert/delete/replace at a character boundary of a valid description",
         prop_par("single-edit-mutations", args.seed, tier.pick(100_000, 8_000_000), arb_mutated, sbody, |s| json!(s)));
+    rep.add("unicode-lookalikes", false, "keywords with U+212A / U+017F / U+0131 in place of k / s / i",
+        prop_par("unicode-lookalikes", args.seed, tier.pick(5_000, 50_000), arb_lookalike, sbody, |s| json!(s)));
     rep.add("arbitrary-unicode", false, "arbitrary Unicode strings (incl. control characters)",
         prop_par("arbitrary-unicode", args.seed, tier.pick(30_000, 5_000_000), || prop_oneof![".{0,12}", "[#0-9a-fA-F +\\-é\u{3000}]{0,10}", "\\PC{0,8}"], sbody, |s| json!(s)));
     rep.add("print-parse-roundtrip", false, "expressible styles (no underline colour, no bright palette colours, 7 attributes) printed in 3 spellings",
